@@ -49,7 +49,7 @@ def paths(A, F, body, opaque, env=None, args=None, st=None, select=None):
             if args is None:
                 args = ip.fresh_args(body, env or {}, st)
             for (s2, rv) in ip.run_root(body, env or {}, args, st):
-                out.append({"st": s2, "ret": rv, "trace": trace_of(s2, body["def"]), "args": args})
+                out.append({"st": s2, "ret": rv, "trace": trace_of(s2), "args": args})
     finally:
         ip.opaque_fn, ip.summarizable = old, olds
     return out
